@@ -49,11 +49,10 @@ Proof. intros t d. simpl. rewrite Nat.eqb_refl. auto. Qed.
 Lemma libc_calls_have_no_hidden_lock : libc_calls_reentrant fn_refs (reachable_fns fn_refs data_refs) = true.
 Proof. vm_compute. reflexivity. Qed.
 
-(** KNOWN FINDING (excluded from the theorems below, which speak about the library's own lock): localtime_r() takes libc's timezone lock,
-    which fork() does not reset; the only reachable caller that is not a guard holding the repository mutex is the datetime data source.
-    Once the data source goes through the guard snoopy_tsrm_localtime_r (notes/fixes/C10-localtime-under-mutex) the list is empty. *)
-Lemma timezone_lock_callers_known :
-  forallb (fun c => String.eqb c "snoopy_datasource_datetime") (tz_unguarded tsrm_fns fn_refs (reachable_fns fn_refs data_refs)) = true.
+(** localtime_r() and its relatives take libc's timezone lock, which fork() does not reset: no function a wrapped call can reach calls one
+    of them except through a guard that holds the repository mutex for the duration of the libc call (snoopy_tsrm_localtime_r, shape pinned by
+    [skeleton_ok]); the fork handlers hold that mutex across fork(), so no thread is inside the libc function on the library's behalf then *)
+Lemma timezone_lock_callers_guarded : tz_unguarded tsrm_fns fn_refs (reachable_fns fn_refs data_refs) = [].
 Proof. vm_compute. reflexivity. Qed.
 
 (** the one-time initialisation (mutex, registration of the fork handlers) runs when the library is loaded, from a
